@@ -303,6 +303,12 @@ impl GitSyncServer {
             }
         }
 
+        // Discard uncommitted changes to tracked files (such as `meta`) left behind by an
+        // interrupted write; untracked leftovers are cleaned below.
+        if is_repo && git.cmd_ok(local_path, &["rev-parse", "--verify", "-q", "HEAD"])? {
+            git.cmd(local_path, &["reset", "--hard", "HEAD"])?;
+        }
+
         // Check for meta file, create and commit if missing.
         let meta_path = local_path.join("meta");
         let meta = match load_meta(&meta_path) {
@@ -374,6 +380,21 @@ impl GitSyncServer {
         // Remove any untracked files left behind by interrupted writes.
         self.git.clean_stray_files(&self.local_path)?;
         Ok(())
+    }
+
+    /// Discard everything in the working tree that is not committed: modifications of tracked
+    /// files (such as `meta`), staged additions, and stray untracked TaskChampion files. Used when
+    /// a write failed part-way, so that an uncommitted version or snapshot is neither served nor
+    /// built upon.
+    fn discard_uncommitted(&self) -> Result<()> {
+        if self
+            .git
+            .cmd_ok(&self.local_path, &["rev-parse", "--verify", "-q", "HEAD"])?
+        {
+            self.git
+                .cmd(&self.local_path, &["reset", "--hard", "HEAD"])?;
+        }
+        self.git.clean_stray_files(&self.local_path)
     }
 
     /// Push to the remote branch. Returns `true` on success, `false` if the push is rejected.
@@ -667,16 +688,27 @@ impl Server for GitSyncServer {
             parent_version_id,
             history_segment,
         };
-        let version_path = self.add_version_by_parent_version_id(&version)?;
-        self.meta.latest_version = version_id;
-        let meta_path = self.write_meta()?;
+        let previous_latest = self.meta.latest_version;
+        let committed = (|| {
+            let version_path = self.add_version_by_parent_version_id(&version)?;
+            self.meta.latest_version = version_id;
+            let meta_path = self.write_meta()?;
+            self.git.stage_and_commit(
+                &self.local_path,
+                &[&version_path, &meta_path],
+                "add version",
+            )
+        })();
+        if let Err(e) = committed {
+            // The version was not committed: forget it, and remove what was written for it.
+            self.meta.latest_version = previous_latest;
+            if let Err(e2) = self.discard_uncommitted() {
+                log::warn!("add_version failed and its leftovers could not be removed: {e2}");
+            }
+            return Err(e);
+        }
 
-        // Commit and push, reverting if push fails.
-        self.git.stage_and_commit(
-            &self.local_path,
-            &[&version_path, &meta_path],
-            "add version",
-        )?;
+        // Push, reverting the commit if the push fails.
 
         if !self.push()? {
             // Push was rejected. Undo the commit. reset_to_remote will fetch, reset --hard,
@@ -733,14 +765,23 @@ impl Server for GitSyncServer {
             payload: Vec::<u8>::from(sealed),
         };
         let snapshot_path = self.local_path.join("snapshot");
-        let f = File::create(&snapshot_path)?;
-        serde_json::to_writer(f, &snapshot_file)?;
-        #[cfg(gothenburgbitfactory_taskchampion_verif)]
-        crate::server::verif::failpoint("git:file:snapshot-written")?;
+        let committed = (|| {
+            let f = File::create(&snapshot_path)?;
+            serde_json::to_writer(f, &snapshot_file)?;
+            #[cfg(gothenburgbitfactory_taskchampion_verif)]
+            crate::server::verif::failpoint("git:file:snapshot-written")?;
+            self.git
+                .stage_and_commit(&self.local_path, &[&snapshot_path], "add snapshot")
+        })();
+        if let Err(e) = committed {
+            // The snapshot was not committed: restore the previous one.
+            if let Err(e2) = self.discard_uncommitted() {
+                log::warn!("add_snapshot failed and its leftovers could not be removed: {e2}");
+            }
+            return Err(e);
+        }
 
-        // Commit and push, reverting if push fails.
-        self.git
-            .stage_and_commit(&self.local_path, &[&snapshot_path], "add snapshot")?;
+        // Push, reverting the commit if the push fails.
 
         if !self.push()? {
             // Push was rejected. Undo the commit and reset_to_remote to restore state.
